@@ -139,6 +139,32 @@ fn witness_polys(shares: &[Share], n: usize, k: usize, p: &BigUint) -> Vec<Vec<B
     .collect()
 }
 
+/// Which sampler does the dealer use?  The property says "a separate draw from the supplied random
+/// source" without fixing how a draw becomes a field element.  Probe: deal a one-element secret at
+/// threshold 4 from a ChaCha stream and look for the three coefficients among the first values of
+/// `Fp::random` on the same stream.  All present => "fp-random" (coefficients can then be matched
+/// against draws one for one); none present => "opaque" (another sampler: only sampler-independent
+/// facts are demanded); some present => reported as it is ("mixed"), TLC rejects the Deal events.
+fn probe_sampler(p: &BigUint) -> &'static str {
+  let src0 = rand_chacha::ChaCha8Rng::seed_from_u64(0x5a17);
+  let mut src = src0.clone();
+  let secret = enc24(&BigUint::from(5u8));
+  let ev = match guard(|| Sharks(4).dealer_rng(&secret, &mut src).map_err(|e| e.to_string())) {
+    Guard::Done(Ok(e)) => e,
+    _ => return "opaque",
+  };
+  let shares: Vec<Share> = ev.take(4).collect();
+  let polys = witness_polys(&shares, 4, 1, p);
+  let mut s2 = src0.clone();
+  let draws: Vec<BigUint> = (0..12).map(|_| big_of(&Fp::random(&mut s2))).collect();
+  let hits = polys.first().map(|c| c[..3].iter().filter(|x| draws.contains(x)).count()).unwrap_or(0);
+  match hits {
+    3 => "fp-random",
+    0 => "opaque",
+    _ => "mixed",
+  }
+}
+
 /// `vh shamir-record --out F --seed S --deals N --maxt T`
 pub fn record(a: &Args) -> Report {
   let mut rep = Report::new("shamir-record");
@@ -152,6 +178,8 @@ pub fn record(a: &Args) -> Report {
   let p = p_big();
   let mut nshares_logged = 0usize;
   let mut deal_no = 0usize;
+  let sampler = probe_sampler(&p);
+  rep.count(&format!("dealer_sampler:{sampler}"), 1);
   for d in 0..deals {
     // thresholds are swept (deal d uses t = d for d <= --sweep), then sampled
     let sweep = a.u64("sweep", 0);
@@ -227,8 +255,20 @@ pub fn record(a: &Args) -> Report {
     // by big-integer interpolation.  TLC checks the witness (constant terms = secret, every other
     // coefficient a separate one of the draws) and then EVERY share against it.
     let polys = witness_polys(&mine.iter().map(|(_, s)| s.clone()).collect::<Vec<_>>(), (t as usize).max(1), k, &p);
+    // dealing is a function of (secret, stream): the same stream again gives the same shares
+    {
+      let mut again = src0.clone();
+      if let Guard::Done(Ok(ev2)) = guard(|| sharks.dealer_rng(&secret, &mut again).map_err(|e| e.to_string())) {
+        let s2: Vec<Share> = ev2.take(n_next).collect();
+        if s2.len() != mine.len() || s2.iter().zip(mine.iter()).any(|(a, (_, b))| a != b) {
+          rep.violation("C06", "Sharks::dealer_rng", "dealing-not-a-function-of-the-stream",
+            "two dealings of one secret from identical random streams differ".into(), json!({"t": t, "k": k}));
+        }
+      }
+    }
+    let strong = matches!(src0, Src::Cha(_));
     writeln!(f, "{}", json!({"ev":"Deal","t":t,"secret": elems.iter().map(limbs_of_big).collect::<Vec<_>>(),
-      "draws": draws.iter().map(limbs).collect::<Vec<_>>(),
+      "draws": draws.iter().map(limbs).collect::<Vec<_>>(), "sampler": sampler, "strong": strong as u8,
       "polys": polys.iter().map(|c| c.iter().map(limbs_of_big).collect::<Vec<_>>()).collect::<Vec<_>>() })).unwrap();
     for l in share_lines {
       writeln!(f, "{}", l).unwrap();
@@ -293,6 +333,21 @@ pub fn record(a: &Args) -> Report {
       sels.push((late, vec![]));
       let triple: Vec<usize> = perm[..tt].iter().flat_map(|i| [*i, *i, *i]).collect();
       sels.push((triple, vec![]));
+    }
+    // shares straight from the sequential dealer: x = 1 first and x = t last with something other
+    // than 2..t-1 in between (a gap filled by x = t+1; the middle reversed) — a recovery that
+    // recognises "1..t" by its end points only goes wrong exactly here
+    if tt >= 3 && n_next >= tt + 1 && mine.len() >= tt + 1 {
+      let mut gap: Vec<usize> = (0..tt).collect();
+      gap[1] = tt;                       // x = t+1 in place of x = 2
+      sels.push((gap, vec![]));
+      let mut mid: Vec<usize> = (0..tt).collect();
+      mid[1..tt - 1].reverse();
+      if tt >= 4 {
+        sels.push((mid, vec![]));
+      }
+      sels.push(((0..tt).collect(), vec![]));            // and 1..t in dealer order
+      sels.push(((0..tt).rev().collect(), vec![]));      // and reversed
     }
     if tt >= 1 {
       let mut few = perm[..tt - 1].to_vec();
@@ -426,7 +481,7 @@ pub fn record(a: &Args) -> Report {
       }
       let polys = witness_polys(&kept, 3, 1, &p);
       writeln!(f, "{}", json!({"ev":"Deal","t":t,"secret": elems.iter().map(limbs_of_big).collect::<Vec<_>>(),
-        "draws": draws.iter().map(limbs).collect::<Vec<_>>(),
+        "draws": draws.iter().map(limbs).collect::<Vec<_>>(), "sampler": sampler, "strong": 1,
         "polys": polys.iter().map(|c| c.iter().map(limbs_of_big).collect::<Vec<_>>()).collect::<Vec<_>>() })).unwrap();
       for l in lines {
         writeln!(f, "{}", l).unwrap();
@@ -437,6 +492,32 @@ pub fn record(a: &Args) -> Report {
         Guard::Done(Ok(sv)) if sv == secret => { rep.nontrivial("long-iterator".into()); }
         _ => rep.violation("C06", "Evaluator::next", "long-iterator",
           "shares 598..600 of one evaluator do not recover the secret".into(), json!({"t": t})),
+      }
+    }
+  }
+  // every threshold 1..N with the first t shares of the sequential dealer IN ORDER, reversed, and
+  // shifted by one (x = 2..t+1): a recovery with a fast path for "x = 1..t" must agree with the
+  // general one at every t (round trip only — the TLC oracle covers the small thresholds)
+  if a.u64("big", 1) == 1 {
+    let top = a.u64("order-sweep", 130) as u32;
+    for t in 1..=top {
+      let sharks = Sharks(t);
+      let secret: Vec<u8> = [enc24(&(p_big() - BigUint::from(t))), enc24(&BigUint::from(t))].concat();
+      let mut src = rng_from(seed, 5000 + t as u64);
+      if let Guard::Done(Ok(ev)) = guard(|| sharks.dealer_rng(&secret, &mut src).map_err(|e| e.to_string())) {
+        let shares: Vec<Share> = ev.take(t as usize + 1).collect();
+        let tt = t as usize;
+        let fwd: Vec<Share> = shares[..tt].to_vec();
+        let rev: Vec<Share> = shares[..tt].iter().rev().cloned().collect();
+        let shifted: Vec<Share> = shares[1..].to_vec();
+        for (name, sel) in [("dealer-order", fwd), ("reversed", rev), ("shifted-by-one", shifted)] {
+          rep.evaluations += 1;
+          match guard(|| sharks.recover(&sel).map_err(|e| e.to_string())) {
+            Guard::Done(Ok(s)) if s == secret => { rep.nontrivial(format!("order:{t}:{name}")); }
+            _ => rep.violation("C06", "Sharks::recover", &format!("sequential-shares-{name}"),
+              format!("t={t}: the first t shares of the sequential dealer ({name}) do not recover the secret"), json!({"t": t, "order": name})),
+          }
+        }
       }
     }
   }
